@@ -556,8 +556,11 @@ void fp12_back_cyc(fp12_t c, const fp12_t a) {
 		fp2_add(t1, t1, t0);
 		/* t0 = E * g5^2 + t1. */
 		fp2_sqr(t2, a[1][2]);
-		fp2_mul_nor(t0, t2);
-		fp2_add(t0, t0, t1);
+		fp2_mul_nor(t2, t2);
+		fp2_add(t2, t2, t1);
+		/* If f, keep t0 = 2 * g4 * g5. */
+		fp2_copy_sec(t2, t0, f);
+		fp2_copy(t0, t2);
 		/* t1 = (4 * g2). */
 		fp2_dbl(t1, a[1][0]);
 		fp2_dbl(t1, t1);
@@ -638,8 +641,11 @@ void fp12_back_cyc_sim(fp12_t c[], const fp12_t a[], int n) {
 			fp2_add(t1[i], t1[i], t0[i]);
 			/* t0 = E * g5^2 + t1. */
 			fp2_sqr(t2[i], a[i][1][2]);
-			fp2_mul_nor(t0[i], t2[i]);
-			fp2_add(t0[i], t0[i], t1[i]);
+			fp2_mul_nor(t2[i], t2[i]);
+			fp2_add(t2[i], t2[i], t1[i]);
+			/* If f, keep t0 = 2 * g4 * g5. */
+			fp2_copy_sec(t2[i], t0[i], f);
+			fp2_copy(t0[i], t2[i]);
 			/* t1 = (4 * g2). */
 			fp2_dbl(t1[i], a[i][1][0]);
 			fp2_dbl(t1[i], t1[i]);
@@ -1309,8 +1315,11 @@ void fp18_back_cyc(fp18_t c, const fp18_t a) {
 		fp3_add(t1, t1, t0);
 		/* t0 = E * g5^2 + t1. */
 		fp3_sqr(t2, a[1][2]);
-		fp3_mul_nor(t0, t2);
-		fp3_add(t0, t0, t1);
+		fp3_mul_nor(t2, t2);
+		fp3_add(t2, t2, t1);
+		/* If f, keep t0 = 2 * g4 * g5. */
+		fp3_copy_sec(t2, t0, f);
+		fp3_copy(t0, t2);
 		/* t1 = (4 * g2). */
 		fp3_dbl(t1, a[1][0]);
 		fp3_dbl(t1, t1);
@@ -1391,8 +1400,11 @@ void fp18_back_cyc_sim(fp18_t c[], const fp18_t a[], int n) {
 			fp3_add(t1[i], t1[i], t0[i]);
 			/* t0 = E * g5^2 + t1. */
 			fp3_sqr(t2[i], a[i][1][2]);
-			fp3_mul_nor(t0[i], t2[i]);
-			fp3_add(t0[i], t0[i], t1[i]);
+			fp3_mul_nor(t2[i], t2[i]);
+			fp3_add(t2[i], t2[i], t1[i]);
+			/* If f, keep t0 = 2 * g4 * g5. */
+			fp3_copy_sec(t2[i], t0[i], f);
+			fp3_copy(t0[i], t2[i]);
 			/* t1 = (4 * g2). */
 			fp3_dbl(t1[i], a[i][1][0]);
 			fp3_dbl(t1[i], t1[i]);
@@ -1840,8 +1852,11 @@ void fp24_back_cyc(fp24_t c, const fp24_t a) {
 		fp4_add(t1, t1, t0);
 		/* t0 = E * g5^2 + t1. */
 		fp4_sqr(t2, a[2][1]);
-		fp4_mul_art(t0, t2);
-		fp4_add(t0, t0, t1);
+		fp4_mul_art(t2, t2);
+		fp4_add(t2, t2, t1);
+		/* If f, keep t0 = 2 * g4 * g5. */
+		fp4_copy_sec(t2, t0, f);
+		fp4_copy(t0, t2);
 		/* t1 = (4 * g2). */
 		fp4_dbl(t1, a[1][0]);
 		fp4_dbl(t1, t1);
@@ -1921,8 +1936,11 @@ void fp24_back_cyc_sim(fp24_t c[], const fp24_t a[], int n) {
 			fp4_add(t1[i], t1[i], t0[i]);
 			/* t0 = E * g5^2 + t1. */
 			fp4_sqr(t2[i], a[i][2][1]);
-			fp4_mul_art(t0[i], t2[i]);
-			fp4_add(t0[i], t0[i], t1[i]);
+			fp4_mul_art(t2[i], t2[i]);
+			fp4_add(t2[i], t2[i], t1[i]);
+			/* If f, keep t0 = 2 * g4 * g5. */
+			fp4_copy_sec(t2[i], t0[i], f);
+			fp4_copy(t0[i], t2[i]);
 			/* t1 = (4 * g2). */
 			fp4_dbl(t1[i], a[i][1][0]);
 			fp4_dbl(t1[i], t1[i]);
@@ -2370,8 +2388,11 @@ void fp48_back_cyc(fp48_t c, const fp48_t a) {
 		fp8_add(t1, t1, t0);
 		/* t0 = E * g5^2 + t1. */
 		fp8_sqr(t2, a[1][2]);
-		fp8_mul_art(t0, t2);
-		fp8_add(t0, t0, t1);
+		fp8_mul_art(t2, t2);
+		fp8_add(t2, t2, t1);
+		/* If f, keep t0 = 2 * g4 * g5. */
+		fp8_copy_sec(t2, t0, f);
+		fp8_copy(t0, t2);
 		/* t1 = (4 * g2). */
 		fp8_dbl(t1, a[1][0]);
 		fp8_dbl(t1, t1);
@@ -2452,8 +2473,11 @@ void fp48_back_cyc_sim(fp48_t c[], const fp48_t a[], int n) {
 			fp8_add(t1[i], t1[i], t0[i]);
 			/* t0[i] = E * g5^2 + t1[i]. */
 			fp8_sqr(t2[i], a[i][1][2]);
-			fp8_mul_art(t0[i], t2[i]);
-			fp8_add(t0[i], t0[i], t1[i]);
+			fp8_mul_art(t2[i], t2[i]);
+			fp8_add(t2[i], t2[i], t1[i]);
+			/* If f, keep t0 = 2 * g4 * g5. */
+			fp8_copy_sec(t2[i], t0[i], f);
+			fp8_copy(t0[i], t2[i]);
 			/* t1[i] = (4 * g2). */
 			fp8_dbl(t1[i], a[i][1][0]);
 			fp8_dbl(t1[i], t1[i]);
@@ -2900,8 +2924,11 @@ void fp54_back_cyc(fp54_t c, const fp54_t a) {
 		fp9_add(t1, t1, t0);
 		/* t0 = E * g5^2 + t1. */
 		fp9_sqr(t2, a[2][1]);
-		fp9_mul_art(t0, t2);
-		fp9_add(t0, t0, t1);
+		fp9_mul_art(t2, t2);
+		fp9_add(t2, t2, t1);
+		/* If f, keep t0 = 2 * g4 * g5. */
+		fp9_copy_sec(t2, t0, f);
+		fp9_copy(t0, t2);
 		/* t1 = (4 * g2). */
 		fp9_dbl(t1, a[1][0]);
 		fp9_dbl(t1, t1);
@@ -2984,8 +3011,11 @@ void fp54_back_cyc_sim(fp54_t c[], const fp54_t a[], int n) {
 			fp9_add(t1[i], t1[i], t0[i]);
 			/* t0[i] = E * g5^2 + t1[i]. */
 			fp9_sqr(t2[i], a[i][2][1]);
-			fp9_mul_art(t0[i], t2[i]);
-			fp9_add(t0[i], t0[i], t1[i]);
+			fp9_mul_art(t2[i], t2[i]);
+			fp9_add(t2[i], t2[i], t1[i]);
+			/* If f, keep t0 = 2 * g4 * g5. */
+			fp9_copy_sec(t2[i], t0[i], f);
+			fp9_copy(t0[i], t2[i]);
 			/* t1[i] = (4 * g2). */
 			fp9_dbl(t1[i], a[i][1][0]);
 			fp9_dbl(t1[i], t1[i]);
